@@ -8,6 +8,7 @@ import Gtree.Lemmas.Validate
 import Gtree.Model.Programmable
 import Gtree.Lemmas.Arena
 import Gtree.Lemmas.MergeDistinct
+import Gtree.Lemmas.TreeFacts
 /-
   C03 — programmatically built trees behave like the equivalent Markdown.
 -/
@@ -198,4 +199,20 @@ theorem C03_arena_is_the_source (h : SrcH.Heap) (al : Nat) (idx : Int) (s : Stor
 
 /-- the empty arena is represented by any heap with the allocator at pointer 1 and the counter at 0 -/
 example (h : SrcH.Heap) : SrcH.StoreRel h 1 0 {} := ⟨rfl, rfl, by intro i n hn; simp at hn, by intro i n hn; simp at hn⟩
+end Gtree
+
+namespace Gtree
+
+/-- **C03 (facts: which code runs).**  `newTreeSimple` fills each part of the simple tree through a factory that
+    calls the expected constructors with the expected configuration fields, each constructor returns the struct the
+    heap-mode theorems are about (`defaultGrowerSimple`, `defaultSpreaderSimple`, …), and those structs declare the
+    translated methods — so the functions translated in §4.5 are the ones every entry point of the simple mode runs.
+    Regenerated from simple_tree*.go on every run. -/
+theorem C03_facts_simple_tree_is_made_of_the_translated_parts :
+    expectedParts.all partOk = true ∧ expectedCtors.all ctorOk = true ∧ expectedMethods.all methodsOk = true ∧
+    expectedCalls.all callsOk = true ∧ Facts.treeSimpleCalls.length = expectedCalls.length :=
+  ⟨simple_tree_is_made_of_the_translated_parts.1, simple_tree_is_made_of_the_translated_parts.2.1,
+   simple_tree_is_made_of_the_translated_parts.2.2, simple_tree_operations_grow_then_use.1,
+   simple_tree_operations_grow_then_use.2⟩
+
 end Gtree
